@@ -607,6 +607,7 @@ func (r *run) finish(nd *node) error {
 	ev["first"], ev["last"] = r.in.num(first), r.in.num(last)
 	read := [][]int{}
 	wrote := [][]int{}
+	cur := [][]int{} // what the store holds for the range, as this node handed it over
 	if rep.Range.Start <= rep.Range.End && rep.Range.End-rep.Range.Start <= 4096 {
 		for i := rep.Range.Start; i <= rep.Range.End; i++ {
 			if i < rep.Range.End {
@@ -616,13 +617,18 @@ func (r *run) finish(nd *node) error {
 				} else {
 					read = append(read, r.in.abs(&l))
 				}
+				if w := nd.written[i]; w != nil {
+					cur = append(cur, r.in.abs(w))
+				} else {
+					cur = append(cur, missing)
+				}
 			}
 			for _, w := range nd.wroteEver[i] {
 				wrote = append(wrote, r.in.abs(w))
 			}
 		}
 	}
-	ev["read"], ev["wrote"] = read, wrote
+	ev["read"], ev["wrote"], ev["cur"] = read, wrote, cur
 	var cpl raft.Log
 	if err := nd.hk.LogStore.GetLog(rep.Range.End, &cpl); err != nil {
 		ev["cpread"] = missing
